@@ -412,6 +412,9 @@ class ExecMixin(object):
     # -- with ----------------------------------------------------------------
     def st_With(self, node, state, frame):
         res = [(state, NORMAL)]
+        dbs = []   # database handles used as context managers (sqlite3:
+        #            commit when the block is left normally, rollback on an
+        #            exception; the connection stays open)
         for item in node.items:
             nxt = []
             for (s, o) in res:
@@ -420,6 +423,9 @@ class ExecMixin(object):
                     continue
 
                 def cont(s2, v, item=item):
+                    dbn = self.db_name(v)
+                    if dbn is not None and (dbn, v) not in dbs:
+                        dbs.append((dbn, v))
                     if item.optional_vars is not None:
                         return self.assign(item.optional_vars, v, s2, frame, node)
                     return [(s2, NORMAL)]
@@ -429,6 +435,10 @@ class ExecMixin(object):
         for (s, o) in res:
             if o.kind != "normal":
                 out.append((s, o))
-            else:
-                out.extend(self.exec_block(node.body, s, frame))
+                continue
+            for (s2, o2) in self.exec_block(node.body, s, frame):
+                for (dbn, v) in dbs:
+                    self.db_call(v, dbn, "rollback" if o2.kind == "raise" else "commit",
+                                 [], {}, s2, frame, node)
+                out.append((s2, o2))
         return out
